@@ -228,9 +228,9 @@ MANIFEST_TEXT = {
         "text": "Lean: pcrLoop_not_diverged / assemble_not_diverged (the PCR size loop and hence the whole assembly terminates for EVERY input: each pass settles a "
                 "statement or the progress guard forces one, so #statements + 1 passes suffice), parseLine_no_internal / parseLines_no_internal (parsing ends "
                 "in a statement list or a diagnostic, never an internal error), asmMain_failure (C10 file: no successful assembly => exit 1, no file created or "
-                "modified); C13_Statement_false: INCLUDE of a missing file is an internal error (finding I2).",
+                "modified); see Props/C13.lean for the current state of 'no internal error in the later passes'.",
         "design_ref": "DESIGN.md section 5 C13, section 6 I",
-        "note": "known finding I2; absence of internal errors in the later passes is validated by mutation / random streams under a watchdog, not proved",
+        "note": "internal errors found on the way were repaired (fix: commits dfaa72e, 53e40d1, 3dc4a50, 077e4c2, 316e504, 8c9a9ea, 0addc5e, dfad397, 145359a); the streams run under a 3 s watchdog",
         "technique": "Lean 4 proof (termination measure for the size fixpoint; outcome case analysis of the parser) + differential correspondence with watchdog + CLI exit-status oracle",
     },
     "C17": {
@@ -255,10 +255,10 @@ MANIFEST_TEXT = {
     "C19": {
         "text": "Lean: include_textual (for every file system, prefix, suffix and include line: assembling with INCLUDE f equals assembling with the lines of f "
                 "spliced in, whenever the including side does not end in an internal error), include_textual_star (any nesting, by induction), "
-                "include_missing_internal / include_cycle_internal and C19_finding_* (missing file and cycles are NOT diagnostics: finding I2; the "
-                "unconditional equality is false because of detection order), C19_partial.",
+                "include_textual_cases (unconditional trichotomy), include_missing_diag / include_cycle_diag (a missing file and an inclusion cycle are "
+                "diagnostics), C19_partial; C19_not_full only through nesting deeper than 64 files.",
         "design_ref": "DESIGN.md section 5 C19",
-        "note": "known finding I2; the hypothesis 'not internal' is exactly the I2 region",
+        "note": "missing files and cycles are diagnostics since fix 8c9a9ea (include_missing_diag, include_cycle_diag); 'internal' remains only through INCLUDE nesting deeper than the model's fuel (64), which stands for Python's RecursionError",
         "technique": "Lean 4 proof (expansion distributes over concatenation, fuel monotonicity) + differential correspondence + implementation-vs-implementation splice oracle",
     },
     "C09": {
